@@ -14,8 +14,14 @@ func init() {
 			// active side
 			"ha.HASyncer.PushChange", "ha.HASyncer.handleGetSessions",
 		},
+		// the delivery layer (Go channels, SSE writer) is not modelled: bounded stand-in on the real code
+		BoundedChecks: []BoundedCheck{
+			{ID: "ha.stream_backpressure", Pkg: "github.com/codelaboratoryltd/bng/pkg/ha", File: "ha_stream_backpressure.go",
+				Bound: "a connected standby whose writer is stalled while the active pushes 1, 50, 99, 100, 101, 150, 400 changes",
+				Claim: "every accepted change is queued for the standby in push order, or the standby's stream has been ended so that it resynchronises -- never a silent hole"},
+		},
 		Undecided: []string{
-			"delivery between PushChange and handleSSEData: Go channels (pendingChanges FIFO, per-client channel), broadcastLoop/broadcastToClients, the SSE framing in sendSSE/connectToStream and the network are not modelled. By inspection broadcastToClients DROPS a change when a standby's channel (cap 100) is full although PushChange returned nil, and handleSSEData never checks SequenceNum gaps (spec/replays/inspection_C13_broadcast_drop.go)",
+			"delivery between PushChange and handleSSEData: Go channels (pendingChanges FIFO, per-client channel), broadcastLoop/broadcastToClients, the SSE framing in sendSSE/connectToStream and the network are not modelled. broadcastToClients used to DROP a change when a standby's channel (cap 100) was full although PushChange had returned nil (found by inspection, spec/replays/inspection_C13_broadcast_drop.go; repaired by af1ecfb: the stalled standby's stream is ended and it resynchronises); the bounded stand-in ha.stream_backpressure watches this layer; handleSSEData still never checks SequenceNum gaps",
 			"schedules of disconnections/reconnections (standbyLoop, waitReconnect back-off, periodic full sync): only the per-call effect of performFullSync and handleSSEData is decided",
 			"the snapshot served by the active: GetAllSessions is proved sound AND complete (every element is the value of a present key and every present key's value is returned, via the engine's map-range visited set); that handleGetSessions puts exactly that list into the HTTP response body is outside the model (json encoding to an io.Writer)",
 			"the message placed on pendingChanges carries the sequence number just taken (channel contents not modelled); PushChange is decided only on the counter s.sequenceNum",
